@@ -7,15 +7,19 @@ LEAN_MODULES = ['TboxModel.C09.Props']
 EXE = 'c09'
 MODE = 'trace'
 THEOREMS = ['Tbox.C09.' + t for t in [
-    'C09_truncate', 'C09_truncate_puts', 'C09_text_refines_spec', 'C09_order_is_interleaving', 'C09_files_refine_spec', 'C09_filter', 'C09_filter_table',
+    'C09_truncate', 'C09_truncate_puts', 'C09_max_change_counterexample', 'C09_text_refines_spec', 'C09_order_is_interleaving', 'C09_files_refine_spec', 'C09_filter', 'C09_filter_table',
     'C09_contiguous', 'C09_per_thread_order', 'C09_stream_is_frames', 'C09_unlocked_counterexample',
     'C09_reframe', 'C09_reframe_prefix', 'C09_reframe_fuel', 'C09_async_end_to_end',
     'C09_render_fields', 'C09_render_marker', 'C09_render_marker_counterexample',
+    'C09_tables', 'C09_render', 'C09_render_sync', 'C09_render_syslog', 'C09_render_marker_all',
+    'C09_flushW_refines_flush', 'C09_file_write_faults', 'C09_file_partial_write_counterexample',
     'C09_file_whole_records', 'C09_file_rollover', 'C09_disable_flushes']]
 SOURCES = ['modules/log/sink.cpp', 'modules/log/async_sink.cpp', 'modules/log/async_file_sink.cpp',
+           'modules/log/async_stdout_sink.cpp', 'modules/log/async_syslog_sink.cpp', 'modules/log/sync_stdout_sink.cpp',
            'modules/util/async_pipe.cpp', 'modules/util/buffer.cpp', 'modules/util/fs.cpp',
            'modules/util/string.cpp'] + vlib.BASE_SOURCES
 FLAVOUR = 'asan'
+LIBS = ['-ldl']
 BATCH = 40
 BATCH_TIMEOUT = 240
 CASE_TIMEOUT = 60
@@ -28,15 +32,20 @@ TRUSTED = ['model lean/TboxModel/C09/Model.lean hand-written from log_impl.cpp, 
            'cleanup() delivers everything appended before it',
            'std::mutex gives atomic critical sections (the interleaving model has one atomic step per pipe append); vsnprintf returns the '
            'formatted length and stores size-1 bytes; write() is complete; log file names sort by creation (second resolution + numeric suffix)',
-           'data-race freedom itself is not exhibited by the model (ASan build; a TSan run is not part of this check)']
+           'level letters and colour codes are regenerated from log_impl.cpp by pre_lean on every run (lean/TboxModel/C09/GenTables.lean); '
+           'C09_tables re-checks them (letters as documented, one well-formed SGR code per level)',
+           'harness interposition: fd 1 redirected to a capture file for the stdout sinks, syslog()/vsyslog() captured, write(2) on log files cut short '
+           'according to the wfault plan',
+           'data-race freedom itself is not exhibited by the model: it is searched with ThreadSanitizer in the thorough tier (1-8 threads logging while '
+           'the main thread enables/disables/reconfigures sinks, also concurrently: runc)']
 ASSUMPTIONS = ['module, function and file names < 1000 bytes (each snprintf piece fits the 1 KiB stack buffer; longer ones over-read it: outside the quantifier)',
                'module/function/file strings outlive the asynchronous back end (the pipe carries the pointers, not the characters)',
-               'the maximum length does not change while a call is in progress; sizes < 2^32; sinks are reconfigured only while no thread is logging',
-               'write(2) on the log file is complete; the log directory is not modified by others',
+               'sizes < 2^32; enableColor() is called only while the sink has no record in flight (enable_color_ is an unsynchronised bool)',
+               'write(2) on a log file may be short (oracle) but does not fail for ever; stdout and syslog writes are complete; the log directory is not modified by others',
                'AsyncFileSink::cleanup() has not been called before a later enable (it zeroes pid_ and every later flush returns early)']
 RULE = ('cases = sink set-ups (0-2 in-memory sinks through the public Sink API with filter tables, 0-2 real AsyncFileSinks with file limits 1 B .. 1 MiB '
-        'and pipe buffers 1 B .. 10 KiB) + 1-3 runs of 1-8 logging threads (message lengths 0..max+5, around 2047/2048/2049 and around max, '
-        'max in {0,10,2048,102400,...}, printf/puts/null-format calls, levels -3..10) + reconfiguration, disable/enable; non-trivial = a run with >= 2 '
+        'and pipe buffers 1 B .. 10 KiB, SyncStdoutSink / AsyncStdoutSink / AsyncSyslogSink, colour on and off, short-write plans for the log files) + 1-3 runs of 1-8 logging threads (message lengths 0..max+5, around 2047/2048/2049 and around max, '
+        'max in {0,10,2048,102400,...}, printf/puts/null-format calls, levels -3..10) + reconfiguration between and DURING runs (runc), disable/enable; non-trivial = a run with >= 2 '
         'active threads AND (a truncation, a filter drop, or a file sink holding records); distinct = distinct op text')
 LEVEL_TEXT = ('Lean 4 theorems over a model of the logging path: truncation loop (all lengths, all maxima), filter table, contiguity/per-thread order/'
               'exactly-once of dispatch under the global lock for every schedule (with the unlocked counterexample), re-framing of the pipe stream for '
@@ -68,7 +77,7 @@ def lens_for(rng, mx, tier, small_only):
     return rng.choice([0, 1, 100, 500, 1023, 1024, 1025, 3000])
 
 
-def gen_case(rng, tier):
+def gen_case(rng, tier, conc=0.15):
     ops = []
     mx = rng.choice([None, 0, 10, 2048, 102400, 102400, rng.choice([1, 7, 100, 2047, 2049, 5000])])
     if mx is not None:
@@ -86,6 +95,33 @@ def gen_case(rng, tier):
         fmax = rng.choice([1, 50, 120, 200, 1000, 4096, 100000, 1 << 20])
         ops.append('sink file %d %d %d %d %d' % (fmax, bsz, bmin, bmax, rng.choice([1, 5, 100])))
         nsinks += 1; files.append(nsinks)
+    # the remaining sinks: sync / async stdout (at most one of them: they share fd 1), syslog
+    r = rng.random()
+    pipe = lambda: '%d %d %d %d' % (rng.choice([1, 7, 72, 100, 10240]), 1, rng.choice([1, 2, 20]), rng.choice([1, 5, 100]))
+    if r < 0.2:
+        ops.append('sink sout'); nsinks += 1; files.append(nsinks)
+    elif r < 0.4:
+        cfg = pipe(); tiny_pipe = tiny_pipe or cfg.split()[0] in ('1', '7')
+        ops.append('sink aout ' + cfg); nsinks += 1; files.append(nsinks)
+    if rng.random() < 0.2:
+        cfg = pipe(); tiny_pipe = tiny_pipe or cfg.split()[0] in ('1', '7')
+        ops.append('sink syslog ' + cfg); nsinks += 1; files.append(nsinks)
+    for k in files:
+        if rng.random() < 0.3:
+            ops.append('color %d 1' % k)
+    if files and rng.random() < 0.25:
+        ops.append('wfault ' + ' '.join(str(rng.choice([0, 1, 2, 5, 30, 71, 72, 73, 100, 2000])) for _ in range(rng.choice([1, 3, 8, 20]))))
+
+    def conc_acts():
+        acts = []
+        for _ in range(rng.choice([1, 2, 4, 8])):
+            k = rng.randrange(1, nsinks + 1)
+            r = rng.random()
+            if r < 0.3: acts.append('lvl,%d,*,%d' % (k, rng.choice([-1, 2, 4, 6, 8])))
+            elif r < 0.6: acts.append('lvl,%d,%s,%d' % (k, rng.choice(MODS), rng.choice([-1, 1, 3, 5, 7])))
+            elif r < 0.9: acts.append('unset,%d,%s' % (k, rng.choice(MODS)))
+            else: acts.append('max,%d' % eff_max)
+        return acts
 
     def reconf():
         for _ in range(rng.choice([0, 1, 2, 3])):
@@ -109,12 +145,17 @@ def gen_case(rng, tier):
                     t, rng.choice([-3, 0, 1, 2, 3, 4, 5, 6, 7, 8, 10]), rng.choice(MODS + ['-'] if rng.random() < 0.1 else MODS),
                     rng.choice(FUNCS), rng.choice(FILES), rng.choice([0, 1, 42, 99999, -7]), kind, ln, rng.randrange(1000)))
         rng.shuffle(specs)
-        ops.append('run %d %s' % (T, ' '.join(specs)))
+        if nsinks and rng.random() < conc:
+            acts = conc_acts()
+            ops.append('runc %d %d %s %s' % (T, len(acts), ' '.join(acts), ' '.join(specs)))
+        else:
+            ops.append('run %d %s' % (T, ' '.join(specs)))
         r = rng.random()
         if r < 0.3: reconf()
         elif r < 0.5 and nsinks:
             k = rng.randrange(1, nsinks + 1)
             ops.append('off %d' % k)
+            if rng.random() < 0.3: ops.append('color %d %d' % (k, rng.randrange(2)))
             if rng.random() < 0.7: ops.append('on %d' % k)
     for k in files:
         ops.append('off %d' % k)
@@ -144,8 +185,34 @@ def gen(rng, tier):
     yield ['sink file 1 1 1 2 1', 'run 4 ' + ' '.join('%d:5:net:f:x.cpp:%d:p:%d:%d' % (i % 4, i, i % 9, i) for i in range(16)), 'off 1', 'on 1',
            'run 2 0:5:net:f:x.cpp:1:s:5:1 1:5:net:f:x.cpp:2:p:0:2', 'off 1']
     yield ['sink file 200 73 1 1 100', 'sink file 120 7 2 2 100', 'run 8 ' + ' '.join('%d:%d:a:f:x.cpp:%d:p:%d:%d' % (i % 8, i % 8, i, 30 + i, i) for i in range(64)), 'off 1', 'off 2']
+    # directed: every sink kind, colour on and off (sync stdout, syslog, async stdout, file), max = 0 marker in all of them
+    yield ['max 0', 'sink sout', 'sink syslog 64 1 2 5', 'sink file 300 72 1 2 5', 'color 1 1', 'color 3 1',
+           'run 2 0:5:a:f:x.cpp:1:p:5:1 1:3:b:-:-:2:s:0:2 0:9:a:run:src/y.cpp:3:f:7:3 1:1:net:f:x.cpp:4:n:0:4', 'off 1', 'off 2', 'off 3',
+           'on 1', 'color 1 0', 'run 1 0:0:net:f:x.cpp:4:p:3:4', 'color 1 1', 'off 1']
+    yield ['sink aout 7 1 2 1', 'color 1 1', 'run 4 ' + ' '.join('%d:%d:a:f:x.cpp:%d:p:%d:%d' % (i % 4, i % 8, i, i, i) for i in range(24)), 'off 1',
+           'color 1 0', 'on 1', 'run 2 0:2:b:f:-:1:s:9:1 1:6:b:-:x.cpp:2:p:0:2', 'off 1']
+    # directed: short writes on the log file (1 byte, inside the first record, exactly one record, one byte less than asked)
+    yield ['sink file 100000 10240 2 20 100', 'wfault 1 1 30 71 0 2000 5',
+           'run 2 ' + ' '.join('%d:5:a:f:x.cpp:%d:p:%d:%d' % (i % 2, i, 20 + i, i) for i in range(12)), 'off 1', 'on 1',
+           'run 1 0:5:a:f:x.cpp:1:p:40:1 0:5:a:f:x.cpp:2:p:41:2', 'off 1']
+    yield ['sink file 60 100 1 2 1', 'wfault 5 5 5 5 5 5 5 5', 'run 3 ' + ' '.join('%d:4:b:run:y.cpp:%d:s:%d:%d' % (i % 3, i, 3 * i, i) for i in range(15)), 'off 1']
+    # directed: filters reconfigured by the main thread WHILE the threads log
+    yield ['sink rec', 'sink file 100000 100 2 5 5', 'lvl 1 a 3', 'lvl 2 b 6',
+           'runc 4 6 unset,1,a lvl,2,*,2 lvl,1,a,7 unset,2,b lvl,1,*,-1 max,102400 ' +
+           ' '.join('%d:%d:%s:f:x.cpp:%d:p:%d:%d' % (i % 4, i % 8, 'ab'[i % 2], i, i % 50, i) for i in range(120)), 'off 2']
+    yield ['color 1 1', 'sink sout', 'sink aout 7 1 1 1', 'sink syslog 0 1 1 1', 'color 1 2', 'wfault', 'wfault x', 'runc 2 1 0:5:a:f:x.cpp:1:p:3:1',
+           'runc 1 1 max,5 0:5:a:f:x.cpp:1:p:3:1', 'run 1 0:5:a:f:x.cpp:1:p:3:1', 'color 1 1', 'off 1', 'color 1 1', 'runc 1 1 frob,1 0:5:a:f:x.cpp:1:p:3:1']
     for _ in range(n):
         yield gen_case(rng, tier)
+
+
+def gen_tsan(rng, tier):
+    """ThreadSanitizer stream: >= 2 threads, sinks enabled/disabled/reconfigured between quiescent points and (runc) while threads log"""
+    yield ['sink rec', 'sink file 100000 100 2 5 5', 'lvl 1 a 3', 'lvl 2 b 6',
+           'runc 4 6 unset,1,a lvl,2,*,2 lvl,1,a,7 unset,2,b lvl,1,*,-1 max,102400 ' +
+           ' '.join('%d:%d:%s:f:x.cpp:%d:p:%d:%d' % (i % 4, i % 8, 'ab'[i % 2], i, i % 50, i) for i in range(160)), 'off 2']
+    for _ in range(140):
+        yield gen_case(rng, 'quick', conc=0.6)
 
 
 def nontrivial(ops, model_lines):
@@ -192,10 +259,32 @@ def pre_lean(repo, lean):
             fh.write(body)
 
 
+_tsan_summary = {}
+
+
+def extra_coverage():
+    return {'tsan_pass': dict(_tsan_summary)} if _tsan_summary else {}
+
+
 def check(tier, seed, replay=None):
-    P = types.SimpleNamespace(**{k: v for k, v in globals().items() if k != 'check'})
+    g = {k: v for k, v in globals().items() if k != 'check'}
+    P = types.SimpleNamespace(**g)
+    rc_t = 0
     try:
-        return vlib.standard_check(P, tier, seed, replay)
+        if tier == 'thorough' and not replay:
+            # ThreadSanitizer pass first (its evidence is folded into the main run's evidence below)
+            gt = dict(g); gt.update(FLAVOUR='tsan', gen=gen_tsan, BATCH=20)
+            gt.pop('extra_coverage', None)
+            rc_t = vlib.standard_check(types.SimpleNamespace(**gt), 'quick', seed, None)
+            try:
+                ev = __import__('json').load(open(os.path.join(vlib.VERIF, 'evidence', 'C09.json')))
+                _tsan_summary.update({'flavour': 'tsan', 'cases': ev['coverage'].get('evaluations'),
+                                      'crashes': ev['coverage'].get('harness', {}).get('crashes'), 'violations': ev.get('violations'),
+                                      'concurrent_reconf_cases': ev['coverage'].get('distribution', {}).get('concurrent-reconf', 0)})
+            except Exception:
+                pass
+        rc = vlib.standard_check(P, tier, seed, replay)
+        return 1 if (rc or rc_t) else 0
     finally:
-        for d in glob.glob('/tmp/C09-[0-9]*-[0-9]*'):      # directories of crashed harness processes
-            shutil.rmtree(d, ignore_errors=True)
+        for d in glob.glob('/tmp/C09-[0-9]*-*'):      # directories of crashed harness processes
+            shutil.rmtree(d, ignore_errors=True) if os.path.isdir(d) else os.unlink(d)
